@@ -16,6 +16,7 @@ import SkNet.Lemmas.DasguptaDef
 import SkNet.Lemmas.DasguptaRelabel
 import SkNet.Lemmas.Reduce
 import SkNet.Lemmas.TsdModel
+import SkNet.Lemmas.HtOrder
 
 namespace SkNet.C08
 open SkNet SkNet.Dendro SkNet.Cut
@@ -436,10 +437,28 @@ example : ValidDendro 4 ([⟨0, 1, 1, 2⟩, ⟨2, 3, 2, 2⟩, ⟨4, 5, 3, 4⟩] 
     MonoPaths 4 ([⟨0, 1, 1, 2⟩, ⟨2, 3, 2, 2⟩, ⟨4, 5, 3, 4⟩] : Dendro Nat) = true ∧
     DistinctHeights ([⟨0, 1, 1, 2⟩, ⟨2, 3, 2, 2⟩, ⟨4, 5, 3, 4⟩] : Dendro Nat) = true := by decide
 
-/-- without monotone heights the exact count fails: the model (and the code) returns 3 clusters for
-    `n_clusters = 2` on a valid dendrogram whose root is lower than its child -/
-example : (cutStraight (α := Nat) [⟨0, 1, 5, 2⟩, ⟨2, 3, 1, 3⟩] (some 2) none true false argsortDesc).toOption.map (·.labels)
-    = some [0, 1, 2] := by decide
+/-- **The statement of C08 is false for `cut_straight` on valid dendrograms with an inversion** (F24, a known
+    finding of the code, mirrored by the model): `D = [[0,1,5,2],[2,3,1,3]]` is a valid dendrogram over 3 leaves with
+    pairwise distinct heights whose root (height 1) is lower than its child (height 5); on it
+    * `cut_straight(D, n_clusters=2)` returns 3 clusters (not exactly `n_clusters` although heights are distinct),
+    * `cut_straight(D, threshold=2)` leaves the merge of height 1 < 2 unapplied (its leaves 0, 1, 2 get 3 labels),
+    * `cut_straight(D, 2, return_dendrogram=True)` raises `KeyError` (the reordering by height puts the parent row
+      before the row that creates its child).
+    Hence `MonoPaths` in the hypotheses of `cutStraight_exact`, `cutStraight_valid_input`, `cutStraight_dendro_valid`
+    is necessary; the executable specification `straightSpec` states the clauses without it and the check reports
+    such inputs as the known finding. -/
+theorem cutStraight_inversion_counterexample :
+    ValidDendro 3 ([⟨0, 1, 5, 2⟩, ⟨2, 3, 1, 3⟩] : Dendro Nat) = true ∧
+    DistinctHeights ([⟨0, 1, 5, 2⟩, ⟨2, 3, 1, 3⟩] : Dendro Nat) = true ∧
+    MonoPaths 3 ([⟨0, 1, 5, 2⟩, ⟨2, 3, 1, 3⟩] : Dendro Nat) = false ∧
+    (cutStraight (α := Nat) [⟨0, 1, 5, 2⟩, ⟨2, 3, 1, 3⟩] (some 2) none true false argsortDesc).toOption.map (·.labels)
+      = some [0, 1, 2] ∧
+    (cutStraight (α := Nat) [⟨0, 1, 5, 2⟩, ⟨2, 3, 1, 3⟩] none (some 2) true false argsortDesc).toOption.map (·.labels)
+      = some [0, 1, 2] ∧
+    (match cutStraight (α := Nat) [⟨0, 1, 5, 2⟩, ⟨2, 3, 1, 3⟩] (some 2) none true true argsortDesc with
+      | .error e => e == PyErr.keyError
+      | .ok _ => false) = true := by
+  decide
 
 end straight
 
@@ -679,6 +698,19 @@ example : (cutStraight (α := Nat) [⟨0, 1, 1, 2⟩, ⟨2, 3, 2, 2⟩, ⟨4, 5,
       argsortDesc).toOption.map (·.dendro) = some (some [⟨0, 1, 3, 4⟩]) ∧
     ValidDendroW [2, 2] ([⟨0, 1, 3, 4⟩] : Dendro Nat) = true := by
   refine ⟨by decide, by decide⟩
+
+/-- the theorems of this section at the height type of the runs, `Ht` = rationals and `+inf` (`SkNet.Dendro.Ht`
+    is linearly ordered by the `<` the driver uses: Lemmas/HtOrder.lean): a dendrogram whose last merge joins two
+    connected components at infinite height, as Paris returns them; two clusters asked for, exactly two returned -/
+example (out : CutOut Ht)
+    (h : cutStraight (α := Ht) [⟨0, 1, .fin 1, 2⟩, ⟨2, 3, .fin 2, 2⟩, ⟨4, 5, .inf, 4⟩] (some 2) none true true
+      argsortDesc = .ok out) :
+    ∃ cl : List (List Nat), cl.flatten.Perm (List.range 4) ∧ out.labels.length = 4 ∧ cl.length = 2 := by
+  obtain ⟨cl, h1, _, h3, _, _, h6⟩ := cutStraight_valid_input (α := Ht) argsortDesc_sortsDesc (by decide) (by decide) h
+  exact ⟨cl, h1, h3, h6 rfl (by decide)⟩
+
+example : (cutStraight (α := Ht) [⟨0, 1, .fin 1, 2⟩, ⟨2, 3, .fin 2, 2⟩, ⟨4, 5, .inf, 4⟩] (some 2) none true true
+      argsortDesc).toOption.map (·.labels) = some [0, 0, 1, 1] := by decide
 
 /-- **cut_balanced with `return_dendrogram=True`** on a valid dendrogram: same statement. -/
 theorem cutBalanced_dendro_valid {D : Dendro α} {m : Nat} {srt : Bool} {argsort : List Nat → List Nat}
